@@ -1,0 +1,9 @@
+//go:build !verif
+
+package s2
+
+// Without the verif build tag the verification hooks are empty and inlined away.
+
+func verifSched(point int, s *ShapeIndex) {}
+
+func verifHit(k int) {}
